@@ -215,7 +215,7 @@ func TestVerifC17Safesplit(t *testing.T) {
 				c17ssCase(map[string]any{"line": p.line, "got": got, "want": p.want}))
 		}
 	}
-	var avoided []string
+	avoided := []string{}
 	if av.trailingSpace {
 		avoided = append(avoided, "content ending in a white-space rune (probe -Dx\\<space> fails)")
 	}
